@@ -326,6 +326,14 @@ def run(sc: dict) -> list[dict]:
             le = inst.last_exception
             d["exc"] = type(le).__name__ if le is not None else ""
             d["hint"] = bool(le is not None and "Try specifying a different port" in str(le))
+            try:
+                j = inst.to_json()
+                d["json"] = {"run": bool(j["is_running"]), "addrs": [addr_view(a) for a in j["listen_addrs"]],
+                             "exc": bool(j["last_exception"]), "spec": tokenize(j["full_spec"]) == specs[d["spec"] - 1]["toks"]
+                             if d["spec"] else False}
+            except Exception as e:  # noqa: BLE001
+                d["json"] = {"run": False, "addrs": [], "exc": False, "spec": False}
+                d["bad"] = type(e).__name__
         return d
 
     def parse_event(i, s):
@@ -454,6 +462,19 @@ def run(sc: dict) -> list[dict]:
                 trace.append({"k": "op", "op": "release", "spec": op[1], "gen": g})
                 fos.gates[g].set()
                 trace.append({"k": "ret", "err": ""})
+            elif kind == "connect":
+                from mitmproxy import connection
+                from mitmproxy.proxy import server_hooks
+
+                _c, host, port, tp = op
+                srv = connection.Server(address=(host, port), transport_protocol=tp)
+                cl = connection.Client(peername=("198.51.100.7", 40000), sockname=("127.0.0.1", 8080), timestamp_start=0)
+                err = ""
+                try:
+                    ps.server_connect(server_hooks.ServerConnectionHookData(server=srv, client=cl))
+                except Exception as e:  # noqa: BLE001
+                    err = type(e).__name__
+                trace.append({"k": "connect", "host": host, "port": port, "tp": tp, "refused": srv.error is not None, "err": err})
             elif kind == "ext_bind":
                 if not fos.ext_bind(op[1], op[2], op[3]):
                     break
